@@ -487,6 +487,53 @@ func layoutHardcodesZone(l string) bool {
 	return false
 }
 
+// namedTimeOrigin: the module's named time type the formatted instant was
+// converted from (time.Time(*t) inside a method of T).
+func namedTimeOrigin(v ssa.Value) *types.Named {
+	for i := 0; i < 4; i++ {
+		switch x := v.(type) {
+		case *ssa.ChangeType:
+			if n := namedOf(x.X.Type()); n != nil && inModuleType(n) && isTimeType(n.Underlying()) || (namedOf(x.X.Type()) != nil && inModuleType(namedOf(x.X.Type())) && types.Identical(namedOf(x.X.Type()).Underlying(), x.Type().Underlying())) {
+				return namedOf(x.X.Type())
+			}
+			v = x.X
+		case *ssa.Convert:
+			v = x.X
+		case *ssa.UnOp:
+			v = x.X
+		default:
+			return nil
+		}
+	}
+	return nil
+}
+
+// typeAlwaysUTC: every conversion of a time.Time into n in the library has a
+// UTC-normalised operand (and there is at least one). Returns the position of
+// the first conversion that does not.
+func typeAlwaysUTC(p *Program, n *types.Named) (bool, string) {
+	found, bad := 0, ""
+	for _, fn := range p.ModFns {
+		if !inLib(fn) || p.isControlFn(fn) {
+			continue
+		}
+		eachInstr(fn, func(_ *ssa.BasicBlock, in ssa.Instruction) {
+			ct, ok := in.(*ssa.ChangeType)
+			if !ok || namedOf(ct.Type()) != n {
+				return
+			}
+			if nn := namedOf(ct.X.Type()); nn == nil || nn.Obj().Pkg() == nil || nn.Obj().Pkg().Path() != "time" {
+				return
+			}
+			found++
+			if !utcNormalised(ct.X, 4) && bad == "" {
+				bad = p.instrPos(ct) + " (" + fnKey(fn) + ")"
+			}
+		})
+	}
+	return found > 0 && bad == "", bad
+}
+
 // utcNormalised: v is the result of .UTC() / .In(time.UTC), or a parse
 // result with a zone-hardcoding layout, possibly through phis.
 func utcNormalised(v ssa.Value, depth int) bool {
@@ -552,10 +599,23 @@ func utcRule(c *Ctx, pr *PropertyRun, prop string) {
 			}
 			r.Role("zone-literal-format-site")
 			ok = utcNormalised(cc.Args[0], 4)
+			culprit := ""
+			if !ok {
+				// the instant may be kept in UTC by its TYPE: the receiver is
+				// a conversion from a named type whose every construction in
+				// the library takes a UTC-normalised instant
+				if n := namedTimeOrigin(cc.Args[0]); n != nil {
+					if all, bad := typeAlwaysUTC(p, n); all {
+						ok = true
+					} else if bad != "" {
+						culprit = "; " + typeLabel(n) + " is built from an instant that is not normalised at " + bad
+					}
+				}
+			}
 			r.Ob(ok)
 			r.Sample(map[string]interface{}{"function": fnKey(fn), "layout": layout, "receiver_utc_normalised": ok, "pos": p.instrPos(site)})
 			if !ok {
-				r.Violation("not-utc|"+fnKey(fn)+"|"+layout, p.instrPos(site), fmt.Sprintf("%s formats an instant with layout %q, whose zone is a literal, without normalising it to UTC first: an instant given in another zone is written with that zone's wall clock but labelled UTC", fnKey(fn), layout), nil)
+				r.Violation("not-utc|"+fnKey(fn)+"|"+layout, p.instrPos(site), fmt.Sprintf("%s formats an instant with layout %q, whose zone is a literal, without normalising it to UTC first: an instant given in another zone is written with that zone's wall clock but labelled UTC%s", fnKey(fn), layout, culprit), nil)
 			}
 		})
 	}
